@@ -504,7 +504,12 @@ class JaqalParser(Parser):
         if token is not None:
             line = token.lineno
             col = self.compute_col(token.index)
-            msg = f"At token `{token.value}`"
+            try:
+                shown = str(token.value)
+            except ValueError:
+                # Python refuses to print absurdly large integers
+                shown = token.type
+            msg = f"At token `{shown}`"
         else:
             line = "EOF"
             col = 0
